@@ -39,6 +39,8 @@ def gen_world(r, tier):
     # clock: start instants include the second before an MJD rollover (00:00 UTC)
     day = r.randrange(15000, 25000)
     start = day*86400.0 + r.choice([0.0, 43200.0, 86399.0, 86399.6, r.uniform(0, 86400)])
+    if r.random() < 0.1:
+        start = r.choice([1798761599.0, 1830297599.5, 951868799.0, 4102444799.0])   # year ends, 29 Feb 2000, 2099
     w['clock'] = {'start': start,
                   'ticks': [r.choice([0.0, 0.001, 0.25, 0.5, 1.0, 3600.0]) for _ in range(4)]}
     w['plots'] = 'agg' if r.random() < (0.25 if tier == 'thorough' else 0.08) else 'stub'
@@ -75,6 +77,8 @@ def gen_world(r, tier):
                 pl['photoplate'] = not photoplate
             else:
                 pl['zbest'] = not zbest
+        if r.random() < 0.04:
+            pl['no_coeff'] = True
         if p == damaged:
             which = r.choice(['damage', 'damage', 'photo_damage', 'z_damage'])
             if which == 'damage':
@@ -86,7 +90,7 @@ def gen_world(r, tier):
         plates.append(pl)
     w['spectro'] = {'run2d': run2d, 'run1d': run1d, 'npix': npix, 'c0': 3.6, 'c1': 1e-4,
                     'noise_seed': r.randrange(2**31), 'plates': plates}
-    nf = r.randint(1, 4)
+    nf = r.choice([1, 2, 3, 4, 4, 6, 8])
     fields = []
     for i in range(nf):
         f = {'run': r.choice([94, 1000, 2000, 3704]), 'camcol': r.randint(1, 6),
@@ -181,6 +185,18 @@ def gen_par(r, w):
     else:
         par['pairs'] = [[a, ('Gal' if a == 'object' else b)] for a, b in pairs]
         par['variant'] = 'object_case'
+    if par['variant'] == 'valid':
+        u2 = r.random()
+        if u2 < 0.06:
+            par['pairs'] = [[a, ('"%s"' % b if a == 'run2d' else b)] for a, b in pairs]
+            par['variant'] = 'quoted_run2d'
+        elif u2 < 0.14 and obj != 'star':
+            par['table'] = {'columns': [c if c[1] != 'zfit' else ['double', 'cz'] for c in cols],
+                            'rows': [row[:3] + [round(row[3]*299792.458, 3)] for row in rows]}
+            par['variant'] = 'valid_cz_column'
+        elif u2 < 0.18:
+            par['pairs'] = [p_ for p_ in par['pairs'] if p_[0] != 'run1d'] + [['run1d', sp['run1d']]]
+            par['variant'] = 'valid_run1d_last'
     return par
 
 
